@@ -363,11 +363,10 @@ impl Variant {
             match round_left {
                 Self::VInteger(i_left) => match round_right {
                     Self::VInteger(i_right) => Ok(Self::VInteger(i_left % i_right)),
-                    Self::VLong(_) => Err(VariantError::Overflow),
-                    _ => Err(VariantError::TypeMismatch),
+                    // a numeric operand that does not fit in an INTEGER
+                    _ => Err(VariantError::Overflow),
                 },
-                Self::VLong(_) => Err(VariantError::Overflow),
-                _ => Err(VariantError::TypeMismatch),
+                _ => Err(VariantError::Overflow),
             }
         }
     }
